@@ -43,6 +43,8 @@ def run(chk):
     chk.samples = [dict(s, rule="W1") if s.get("rule") == "M5" else s for s in chk.samples]
     chk.distinct = {(("W1",) + d[1:]) if d[0] == "M5" else d for d in chk.distinct}
 
+    from . import e10
+    e10.run_U(chk, ("yastn.tensor", "yastn.initialize"), floor1=5, floor2=1)
 
 MUTANTS = [
     ("unaligned charge slice", "yastn/tensor/_merging.py", "to[n * nsym: (n + 1) * nsym]", "to[n: n + nsym]", "S6"),
